@@ -4,8 +4,8 @@
  * deterministic sweep for "events keep being delivered while held" as bounded progress. */
 #include "engine.h"
 
-const char *CHK_RULE = "one case = one history with hold-heavy handlers (sweep: handler kind x emissions before HOLD x release path x status x back-pressure, with an event "
-                       "triggered during the hold; random: generated table/lines, releases by API and by event handlers at random points); non-trivial = at least one hold was "
+const char *CHK_RULE = "one case = one history with hold-heavy handlers (sweep: handler kind x emissions before HOLD x release path x status (0, -1 and other non-zero values) x back-pressure, with an event "
+                       "triggered during the hold; cat_init on an object that is on hold; random: generated table/lines, releases by API and by event handlers at random points); non-trivial = at least one hold was "
                        "entered; distinct by (holds entered, holds with input queued, release paths used, table size, input bytes, schedule kind)";
 static char mode[120];
 void chk_describe(FILE *f) { fprintf(f, "%s\n", mode); eng_describe(f); }
@@ -23,12 +23,15 @@ static cat_return_state sw_policy(struct hcall *h)
         if (k == sw_pre) return CAT_RETURN_STATE_HOLD;
         return CAT_RETURN_STATE_OK;
 }
-#define N_SWEEP (4 * 4 * 2 * 2 * 4)
+#define N_SWEEP_A (4 * 4 * 2 * 4 * 4)
+#define N_SWEEP_B (4 * 2 * 2 * 2)
+#define N_SWEEP (N_SWEEP_A + N_SWEEP_B)
+static const int API_STATUS[4] = { 0, -1, 1, 2 };      /* CAT_STATUS_OK, _ERROR and two other non-zero values (they read BUSY and HOLD): "0 - OK, else ERROR" */
 static void sweep_case(long item)
 {
-        sw_kind = (int)(item % 4); item /= 4; sw_pre = (int)(item % 4); item /= 4; sw_path = (int)(item % 2); item /= 2; sw_status = (int)(item % 2); item /= 2;
+        sw_kind = (int)(item % 4); item /= 4; sw_pre = (int)(item % 4); item /= 4; sw_path = (int)(item % 2); item /= 2; int st4 = (int)(item % 4); sw_status = st4 != 0; item /= 4;
         int bp = (int)item;      /* 0 eager, 1 refuse every 2nd write, 2 long refusal run at hold entry, 3 reads sparse */
-        snprintf(mode, sizeof mode, "sweep: hold entered from handler kind %d after %d emissions, release via %s with %s, back-pressure mode %d", sw_kind, sw_pre, sw_path ? "event handler" : "cat_hold_exit", sw_status ? "ERROR" : "OK", bp);
+        snprintf(mode, sizeof mode, "sweep: hold entered from handler kind %d after %d emissions, release via %s with status %d (%s), back-pressure mode %d", sw_kind, sw_pre, sw_path ? "event handler" : "cat_hold_exit", sw_path ? -sw_status : API_STATUS[st4], sw_status ? "ERROR" : "OK", bp);
         w_begin();
         struct cat_command *arr = w_group(3, false);
         arr[0].name = xstr("+H"); arr[0].run = h_run; arr[0].read = h_read; arr[0].write = h_write; arr[0].test = h_test;
@@ -60,7 +63,7 @@ static void sweep_case(long item)
         if (PU.units == u0) { viol("C14", "event-not-delivered-during-hold", "event triggered during a hold was not emitted within %ld service calls", B); goto out; }
         if (INPOS != inpos_at_hold) viol("C14", "read-during-hold", "input consumed during the hold");
         /* release */
-        if (sw_path == 0) eng_hold_exit(sw_status ? CAT_STATUS_ERROR : CAT_STATUS_OK);
+        if (sw_path == 0) eng_hold_exit((cat_status)API_STATUS[st4]);
         else { sw_event_release = true; eng_trigger(2, (item & 1) ? CAT_CMD_TYPE_TEST : CAT_CMD_TYPE_READ); }
         long codes0 = RESULT_CODES;
         if (run_quiet(eng_progress_bound()) < 0) { viol("C15", "no-quiescence", "no quiescence after the release"); goto out; }
@@ -68,7 +71,45 @@ static void sweep_case(long item)
         eng_after_service(CAT_STATUS_BUSY);
         if (RESULT_CODES - codes0 != 3 && !case_failed())
                 viol("C14", "lines-after-hold-not-answered", "after the release %ld result codes were emitted for the held command and the two queued lines (expected 3)", RESULT_CODES - codes0);
-        { uint64_t h = hash_u64((uint64_t)(sw_kind * 64 + sw_pre * 16 + sw_path * 8 + sw_status * 4 + bp), 77); nontrivial(h); }
+        { uint64_t h = hash_u64((uint64_t)(sw_kind * 256 + sw_pre * 64 + sw_path * 32 + st4 * 4 + bp), 77); nontrivial(h); }
+out:
+        ENG_POLICY_OVERRIDE = NULL;
+}
+/* ---- sweep: the application re-initialises a parser that is on hold: the new parser is not held and answers its lines ---- */
+static void sweep_reinit(long item)
+{
+        sw_kind = (int)(item % 4); item /= 4; sw_pre = (int)(item % 2); item /= 2; bool with_event = item & 1; item /= 2; bool shared = item & 1;
+        snprintf(mode, sizeof mode, "sweep: cat_init on an object that is on hold (handler kind %d after %d emissions%s)", sw_kind, sw_pre, with_event ? ", an event waiting" : "");
+        w_begin();
+        struct cat_command *arr = w_group(2, false);
+        arr[0].name = xstr("+H"); arr[0].run = h_run; arr[0].read = h_read; arr[0].write = h_write; arr[0].test = h_test;
+        arr[1].name = xstr("+E"); { struct cat_variable *v = w_vars(&arr[1], 1); v->type = CAT_VAR_UINT_DEC; v->name = "X"; uint8_t *d = w_vdata(v, 1); *d = 5; }
+        w_buffers(96, shared, 48);
+        w_init(0);
+        static const char *forms[4] = { "AT+H\n", "AT+H?\n", "AT+H=1\n", "AT+H=?\n" };
+        in_reset(); in_puts(forms[sw_kind]);
+        sch_eager(&WS); sch_eager(&RS);
+        eng_monitors_install();
+        ENG_POLICY_OVERRIDE = sw_policy; sw_calls = 0; sw_event_release = false; sw_status = 0;
+        EP.p_handler_trigger = 0;
+        long guard = 0;
+        while (HOLD_PHASE != 1 && guard++ < 5000) { cat_status s = svc(); eng_after_service(s); if (case_failed()) goto out; }
+        if (HOLD_PHASE != 1) { inconclusive("sweep never reached the hold"); goto out; }
+        if (with_event) eng_trigger(1, CAT_CMD_TYPE_READ);
+        /* a new life for the same object */
+        w_reinit(3);
+        eng_monitors_install(); units_reset(); out_reset();
+        ENG_POLICY_OVERRIDE = sw_policy; sw_calls = 100;      /* handlers answer OK from now on */
+        in_reset(); in_puts("AT+E?\r\n"); in_puts("AT+H\n");
+        if (cat_is_hold(W.at) != CAT_STATUS_OK) viol("C14", "hold-survives-reinit", "cat_is_hold reports a hold right after cat_init although no handler of the new parser has asked for one");
+        eng_spurious_hold_exit();
+        if (case_failed()) goto out;
+        if (run_quiet(eng_progress_bound()) < 0) { viol("C14", "hold-survives-reinit", "the re-initialised parser does not serve its input (no quiescence)"); goto out; }
+        eng_after_service(CAT_STATUS_BUSY);
+        if (RESULT_CODES != 2 && !case_failed()) viol("C14", "hold-survives-reinit", "the re-initialised parser answered %ld of its 2 lines", RESULT_CODES);
+        if (PU.units != 0) viol("C13", "event-survives-reinit", "an event accepted by the previous life of the object was delivered by the re-initialised parser");
+        CNT("reinit_while_held_cases");
+        nontrivial(hash_u64((uint64_t)(1000 + sw_kind * 8 + sw_pre * 4 + with_event * 2 + shared), 78));
 out:
         ENG_POLICY_OVERRIDE = NULL;
 }
@@ -82,7 +123,7 @@ void chk_run_case(uint64_t seed, long c, bool is_sweep)
 {
         (void)seed;
         eng_default_profile();
-        if (is_sweep) { sweep_case(c); return; }
+        if (is_sweep) { if (c < N_SWEEP_A) sweep_case(c); else sweep_reinit(c - N_SWEEP_A); return; }
         snprintf(mode, sizeof mode, "random hold-heavy history");
         EP.p_hold = 45 + rn(60); EP.p_event_step = 20 + rn(60); EP.p_handler_trigger = 15; EP.p_weird = 25; EP.p_garbage_line = 2; EP.p_long_line = 2; EP.p_varcb_fail = 1;
         eng_gen_table();
